@@ -14,6 +14,7 @@ import Model.Proto.Mesh
 import Model.Proto.Surveyor
 import Model.Proto.Req
 import Model.Core
+import Model.Handshaker
 import Model.Ledger
 import Model.Bytes
 import Generated.Facts
@@ -75,6 +76,22 @@ def ledgerStep (s : Ledger.State) (op : List String) : List (Ledger.State × Str
     [(s', if s'.bad.length == before then ledgerContents s' else "refused:" ++ (s'.bad.getLast?.getD ""))]
   | _ => []
 
+/-- the connection handshaker behind the line protocol -/
+def hsStep (s : Handshaker.State) (op : List String) : List (Handshaker.State × String) :=
+  let nat (x : String) : Nat := x.toNat?.getD 0
+  let o : Option Handshaker.Op := match op with
+    | ["start", c, _] => some (.start (nat c))
+    | ["finish", c, "ok"] => some (.finish (nat c) true)
+    | ["finish", c, "bad"] => some (.finish (nat c) false)
+    | ["wait", call] => some (.wait (nat call))
+    | ["close"] => some .close
+    | _ => none
+  match o with
+  | none => []
+  | some o =>
+    let r := Handshaker.step s o
+    [(r.1, if r.2.isEmpty then "-" else " ".intercalate r.2)]
+
 instance : BEq Ledger.State := ⟨fun a b => a.msgs == b.msgs && a.next == b.next && a.bad == b.bad⟩
 
 structure State where
@@ -89,6 +106,7 @@ structure State where
   surv : List Surveyor.State := [Surveyor.init]
   req : List Req.State := [Req.init]
   core : List Core.State := [Core.init]
+  hs : List Handshaker.State := [Handshaker.init]
   stuck : Bool := false      -- after a disagreement the scenario is abandoned until the next `new`
 
 /-- returns (new state, agrees?, expected rendering, branch) or none for an unknown tag -/
@@ -105,6 +123,7 @@ def step (s : State) (tag : String) (args : List String) (o : String) : Option (
     | "m.req" => some ({ s with req := [Req.init], stuck := false }, true, "-", "new")
     | "m.core" => some ({ s with core := [Core.init], stuck := false }, true, "-", "new")
     | "m.ledger" => some ({ s with ledger := [{}], stuck := false }, true, "-", "new")
+    | "m.hs" => some ({ s with hs := [Handshaker.init], stuck := false }, true, "-", "new")
     | "m.mesh" =>
       let f := match args.getD 1 "" with
         | "bus" => Mesh.Flavor.bus
@@ -152,6 +171,9 @@ def step (s : State) (tag : String) (args : List String) (o : String) : Option (
   | "m.ledger" =>
     let (cs, exp) := advanceS s.ledger ledgerStep args o
     if cs.isEmpty then some ({ s with stuck := true }, false, exp, opName) else some ({ s with ledger := cs }, true, o, opName)
+  | "m.hs" =>
+    let (cs, exp) := advanceS s.hs hsStep args o
+    if cs.isEmpty then some ({ s with stuck := true }, false, exp, opName) else some ({ s with hs := cs }, true, o, opName)
   | "m.core" =>
     let (cs, exp) := advanceS s.core Core.step args o
     if cs.isEmpty then some ({ s with stuck := true }, false, exp, opName) else some ({ s with core := cs }, true, o, opName)
